@@ -333,6 +333,42 @@ def explore_walk(ctx, depth, confs, nws, policies, runs):
                         ctx.distinct(("sched", depth, nw, apex, tuple((a, o) for a, _op, o in out.trace)))
 
 
+def explore_history(ctx, acc, apex, depths, nw=2):
+    """One Pyramid OBJECT walked repeatedly while its (documented as changeable) depth attribute is changed in between, the
+    counts being asked for in between as a user would: every walk must match the operation set TLC gives for the depth of
+    the moment, serially and in parallel."""
+    from toasty.pyramid import Pos
+    tables = {d: ops_table(ctx, d, [(acc, apex)])[0]["ops"] for d in sorted(set(depths)) if d >= apex[0]}
+    p = build_pyramid(depths[0], acc, apex)
+    hist = []
+    for step, d in enumerate(depths):
+        if d < apex[0]:
+            continue
+        p.depth = d
+        hist.append(d)
+        with simrun.quiet():
+            p.count_operations()
+            p.count_leaf_tiles()
+        ops = tables[d]
+        rep = {"accept": sorted(acc), "apex": apex, "depth_history": list(hist), "seed": ctx.seed}
+        ser = []
+        with simrun.quiet():
+            p.walk(lambda pos: ser.append(T(pos)), parallel=1)
+        ctx.count()
+        judge_walk(ctx, "serial walk on a reused Pyramid object after depth changes %s" % (hist,), ops, [(t, q_, None) for q_ in ser for t in ("cb_start", "cb_end")],
+                   "returned", None, [], rep, keyprefix="C01:walk-serial-history")
+        log = []
+
+        def cb(pos):
+            simmp.cb_sync("cb_start", T(pos), log)
+            simmp.cb_sync("cb_end", T(pos), log)
+        out = simrun.run(lambda: p.walk(cb, parallel=nw), simrun.pol_random(ctx.rng))
+        ctx.count()
+        judge_walk(ctx, "parallel walk on a reused Pyramid object after depth changes %s" % (hist,), ops, log, out.status, out.exc, out.workers_alive_at_return,
+                   rep, keyprefix="C01:walk-parallel-history")
+        ctx.distinct(("history", tuple(sorted(acc)), apex, tuple(hist)))
+
+
 def real_walk(ctx, depth, acc, apex, parallel, generic=False):
     """Real processes; callbacks draw tickets from a shared counter (before the work at start, after it at end)."""
     import multiprocessing as mp
@@ -451,6 +487,12 @@ def run(ctx):
     explore_walk(ctx, 3, [(acc3, ROOT, False), (acc3, (1, 1, 1), False), (with_kids(l1, 3), (2, 1, 2), True)], [2, 4],
                  ["random", "starve-feeder", "stall-w1-cb"], 2 if q else 10)
     explore_walk(ctx, 1, [(frozenset(l1[:2]), ROOT, False), (frozenset(l1), (1, 0, 0), False)], [2], ["random"], 2)
+    # (3b) histories on one object
+    explore_history(ctx, acc3, (2, 0, 1), [2, 3, 2, 3])
+    explore_history(ctx, acc3, ROOT, [1, 3, 2])
+    if not q:
+        explore_history(ctx, with_kids(l1, 3), (3, 5, 2), [3, 3, 2, 3], nw=3)
+        explore_history(ctx, acc3, (1, 1, 1), [3, 1, 2, 3])
     # (4) real processes
     real_walk(ctx, 2, fam[4], ROOT, 2)
     if not q:
